@@ -1,7 +1,7 @@
 ----------------------------- MODULE TarImportGen -----------------------------
 (***************************************************************************)
 (* Scenario generator for C09.  Behaviours of TarImport (the importer as it *)
-(* is today: DrainBug, LinkCode, DupPathBug TRUE in the configs) with a      *)
+(* is now: DrainBug, LinkCode, DupPathBug FALSE in the configs) with a       *)
 (* history of what reached the target; every finished behaviour is printed  *)
 (* once as a JSON scenario:                                                 *)
 (*   sid     scenario id <<graph, link pattern, selection>>                  *)
